@@ -8,7 +8,8 @@ PROP = {'streams': [('c03', 250, 20000)],
          'model; every strict-accepted policy is evaluated on 10 requests accepted by Request::new(.., schema) against a store accepted by '
          'Entities::from_entities(.., schema): error class, satisfaction vs type False / ImpossiblePolicy, typed AST vs condition, and inhabitation '
          "of every evaluated subexpression's annotated type; non-trivial = distinct (policy, environment, result)",
- 'theorems': ['typeOf_sound_partial2',
+ 'theorems': ['typeOf_sound_strict',
+              'typeOf_sound_partial2',
               'typeOf_sound_partialM',
               'accepted_boolean_or_permitted_errorM',
               'typeOf_types_wellformed2',
